@@ -175,15 +175,23 @@ def main(argv=None):
                     second[idx] = r
                 else:
                     results[idx] = r
+    harness_fault = None
     if harness_errors:
+        # a harness fault in some cases does not erase violations demonstrated on the real code by other cases:
+        # violations are reported (exit 1); with no violation the run fails closed (exit 2, no VIOLATION line)
         idx, err = harness_errors[0]
-        print(f"HARNESS-ERROR property={pid} case={idx} ({len(harness_errors)} errors)\n{err}")
+        harness_fault = f"HARNESS-ERROR property={pid} case={idx} ({len(harness_errors)} errors)\n{err}"
         if idx >= 0:
-            print("case:", json.dumps(cases[idx], default=str)[:2000])
-        return 2
+            harness_fault += "\ncase: " + json.dumps(cases[idx], default=str)[:2000]
+        if any(i < 0 for i, _ in harness_errors):
+            print(harness_fault)
+            return 2
+        for i, _ in harness_errors:
+            results.setdefault(i, dict(viol=[], execs=0, outcomes=[], nontrivial=0))
+            second.pop(i, None)
 
     # determinism
-    nondet = [i for i, r in second.items() if r.get("outcomes") != results[i].get("outcomes")]
+    nondet = [i for i, r in second.items() if i in results and r.get("outcomes") != results[i].get("outcomes")]
     if nondet:
         print(f"HARNESS-ERROR property={pid} nondeterministic outcome digests for cases {nondet[:5]}")
         return 2
@@ -291,7 +299,12 @@ def main(argv=None):
     if agg["maxima"]:
         print("  margins(err/tol) by oracle:", {k: float(f"{v:.3g}") for k, v in sorted(agg["maxima"].items())})
     if n_viol:
+        if harness_fault:
+            print(harness_fault[:1500])
         return 1
+    if harness_fault:
+        print(harness_fault)
+        return 2
     # vacuity: fail closed (harness problem, not a violation)
     min_out = spec.get("min_outcomes", 2)
     if states < min_out or agg["nontrivial"] < spec.get("min_nontrivial", 2):
